@@ -6,10 +6,10 @@ Theorems: lean/AtomicaProofs/Properties/C13.lean (+ the precedence / clip theore
 """
 import sys
 
-from vlib import core, params_corr
+from vlib import closedprog_corr, core, params_corr
 
 PROPERTY = "C13"
-LEAN_MODS = ["AtomicaProofs.Properties.C13", "AtomicaProofs.Properties.C06Params"]
+LEAN_MODS = ["AtomicaProofs.Properties.C13", "AtomicaProofs.Properties.C06Params", "AtomicaProofs.Properties.C13Closed"]
 THEOREMS = [
     "Atomica.C13.program_value",            # active + targeted: stored value = clip(convert(outcome(coverages of this step)))
     "Atomica.C13.coverage_from_spending",   # the coverage of the step comes from this step's spending, unit cost and current target sizes
@@ -34,16 +34,60 @@ THEOREMS = [
     "Atomica.C06.precedence_skip",
     "Atomica.C06.precedence_aggregation",
     "Atomica.C06.clip_before_use",
+    # closed loop WITH programs (ClosedProg.simulate): whole simulations from the specification alone
+    "Atomica.C13.closed_is_ev",                              # Closed.simulateN = the generic loop with the policy Closed.evalPars
+    # C09
+    "Atomica.C13.closedprog_is_closed_before_start",         # indices before start_year: run with programs = run without, entry by entry (incl. definedness)
+    "Atomica.C13.closedprog_prefix_before_start",            # ... as prefixes of two longer runs
+    "Atomica.C13.closedprog_stock_at_start",                 # the stocks of the first active index coincide too
+    "Atomica.C13.closedprog_after_stop",                     # after stop_year every parameter has its program-free value on the same state
+    "Atomica.C13.closedprog_after_stop_data",                # ... a data parameter its databook value
+    "Atomica.C13.closedprog_instructions_agree_before",      # two instruction sets interchangeable at the indices < m: same first m entries
+    "Atomica.C13.closedprog_start_year_moved",               # instance: start year moved
+    "Atomica.C13.progNow_congr_before",                      # instance: series that state the same values before Y
+    # C13
+    "Atomica.C13.closedprog_sets_targets",                   # active index, any state: targeted value = clip(convert(outcome(coverages on that state)))
+    "Atomica.C13.closedprog_sets_targets_number",            # = clip(o * source_popsize / dt)
+    "Atomica.C13.closedprog_sets_targets_perTime",           # = clip(o / dt)
+    "Atomica.C13.closedprog_sets_targets_other",             # = clip(o)
+    "Atomica.C13.eligible_of_state",                         # number eligible = sum of the target compartments of THIS state
+    "Atomica.C13.coverage_of_state",                         # coverage = get_prop_covered(this step's capacity, eligible of this state)
+    "Atomica.C13.coverage_of_overwrite",                     # a coverage overwrite decides
+    "Atomica.C13.closedprog_sets_targets_run",               # along a defined run: entry k was stepped with evalParsP s k x, targeted values exact
+    # C06
+    "Atomica.C13.closedprog_untargeted_rule",                # untargeted: = program-free rule on the SAME-index values (overwritten ones included)
+    "Atomica.C13.closedprog_inactive_rule",                  # inactive: the same for every parameter
+    "Atomica.C13.closedprog_untargeted_unchanged_rule",      # not (transitively) dependent on a target: = program-free closed loop on the same state
+    "Atomica.C13.closedprog_no_covouts",                     # no covouts: the run is the program-free run
+    "Atomica.C13.parVal_is_evalOne",                         # the program-free rule is Params.evalOne on the closed loop's inputs
+    "Atomica.C13.evalParsP_clipped",                         # every value within limits, program values included
+    # lifting of the L1 theorems
+    "Atomica.C13.evalParsP_propsNonneg",
+    "Atomica.C13.closedprog_is_process",                     # a run with programs IS Engine.process on its own parameter stream
+    "Atomica.C13.closedprog_total",                          # C01 conservation
+    "Atomica.C13.closedprog_nonneg",                         # C02 non-negativity
+    "Atomica.C13.closedprog_jempty",                         # C04/C10 junctions empty
+    "Atomica.C13.closedprog_prefix",                         # end_extension with programs
 ]
 TRUSTED = [
     "the value of a parameter function on given dependency values, exp() in the saturation curve, and the interpolated databook value are oracle inputs (the harness evaluates the implementation's parsed function / numpy.exp / ParameterSet.interpolate on the finished arrays); only their placement in the pipeline is modelled",
     "in-loop quantities are observed by wrapping ProgramSet.get_outcomes, Program.get_prop_covered and Model.flush_junctions of the Model's own objects from the harness (no change to /repo)",
     "float rounding of coverage, outcome and unit conversion: compared to 1e-11 relative (capacity, eligible 1e-12)",
+    # closed loop with programs
+    "closed loop with programs: extraction of the specification from the built Model / ParameterSet / ProgramSet / ProgramInstructions (vlib/closed_corr.extract + vlib/closedprog_corr.extract_p: target compartments as `_update_program_cache` resolves them, covout program order = dict order, explicit interactions parsed by params_corr.parse_imp)",
+    "a year that equals a point of the float time vector (start / stop year, dated points of spending / unit cost / constraint / overwrite series) is sent as the exact grid point `t[0] + k*dt` of that index (the model's time of index k); every other year as the exact value of the float; a model is not compared (counted ambiguous) when float and exact grid fall on different sides of such a year",
+    "exact rationals are cut off when a stock needs more than closed_corr.BUDGET_BITS bits; the computed prefix is compared (closedprog_prefix)",
+    "what ProgramSet.get_outcomes received / returned in each step is observed by wrapping that method of the Model's own ProgramSet from the harness (used by the oracles only, never fed into the model)",
 ]
 ASSUMPTIONS = [
     "derivative parameters (Euler state) are excluded and counted; NaN coverage/outcome (missing spending data, zero unit cost) is outside the model and counted",
     "junction target compartments: reported eligible uses the junction outflow, the loop uses the (empty) stock -- excluded by the hypothesis of report_eq_used and counted (junction_gap is the kernel-checked witness)",
     "a population aggregation targeted by a program is written after the program stage (precedence_aggregation); not generated",
+    # closed loop with programs
+    "saturation is not modelled (exp is not rational-closed): generated program sets carry no saturation data; a program set with saturation is counted closedprog.unsupported.saturation and not compared",
+    "as closed_corr: no derivative parameters, no skip_function windows, one population type, linear interpolation of databook series, keyrings <= 24 rows",
+    "rounding-dependent discontinuities (covout sort by |outcome - baseline| ties, additive sum of coverages within 1e-9 of 1, eligible population that is floating-point dust, and those of closed_corr) are counted ambiguous and not compared",
+    "a targeted output-only function parameter or population aggregation does not keep the program value (Params.evalOne: postcompute / aggregation stage); hypotheses of closedprog_sets_targets, evaluated on every covout (counted when not held)",
 ]
 RULE = (
     "cases = (processed model, parameter, population) with every compared time index counted as a trace; models: generated frameworks "
@@ -54,6 +98,15 @@ RULE = (
     "library demos udt, usdt, tb_simple, hypertension, hiv (tb in the thorough tier) with generated instructions and step sizes; "
     "non-trivial = the parameter is at some index set by a program, a function, an aggregation or a skip window, has a calibration factor != 1 "
     "or is clipped at a limit"
+    " ;; closed loop with programs: "
+    "cases = generated small models (genfw.random_spec restricted as closed_corr: <= 3 ordinary compartments, <= 2 populations, <= 11 time points, junctions / "
+    "residual junctions / timed / source / sinks / transfers / aggregations, enriched with ratio characteristics, functions, limits, calibration factors) WITH a "
+    "generated program set: 1-3 programs (one-off / continuous, capacity constraints per year or absolute, time-varying spending and unit cost, several target "
+    "populations / compartments incl. timed ones and occasionally a junction), covouts with 1-3 programs, all three coverage interactions and explicit interaction "
+    "outcomes on number / probability / rate / duration / proportion parameters, data and function parameters, transition and non-transition parameters, with function "
+    "parameters reading the targeted ones (one and two deep, link-driving and output-only); instructions with start year before / at / on / off the grid, optional stop "
+    "year, spending / capacity / coverage overwrites; a quarter of the models have programs active at index 0 with an initialised junction.  Every stock row, link flow "
+    "and parameter value of every computed index is compared.  non-trivial = at least one covout whose parameter the loop visits and programs active at some index"
 )
 EXPECTED_BRANCHES = [
     "stage.data", "stage.data.transfer", "stage.function.dynamic", "stage.function.precompute", "stage.function.postcompute", "stage.program.number", "stage.program.pertime",
@@ -61,14 +114,27 @@ EXPECTED_BRANCHES = [
     "overwrite.alloc", "overwrite.capacity", "overwrite.coverage", "prog.multi_pops", "prog.multi_comps", "prog.active_index", "prog.inactive_index",
     "report_eq_used.held", "ti0.double_update", "order.topological.dynamic_pars", "run.demo.udt", "run.generated", "run.directed", "used.coverage_overwrite",
     "clip.program_value", "clip.function_value", "equivalent_alloc.checked", "stage.skip.dynamic",
+    # closed loop with programs
+    "closedprog.compared_models", "closedprog.compared_active_indices", "prog.active_at_index0", "prog.active_at_index0.junction_initialised", "prog.index0.preflush_outcomes_differ",
+    "prog.starts_later", "prog.stop_inside_run", "instr.stop_year", "overwrite.alloc", "overwrite.capacity", "overwrite.coverage", "prog.oneoff", "prog.continuous",
+    "prog.capacity_constraint", "prog.timevarying_book", "prog.multi_pops", "prog.multi_comps", "prog.timed_target", "covout.nprogs1", "covout.nprogs2", "covout.nprogs3",
+    "covout.additive", "covout.nested", "covout.random", "covout.explicit_interaction", "target.units.number", "target.units.pertime", "target.units.other",
+    "target.format.proportion", "target.format.probability", "target.format.rate", "target.format.number", "target.format.duration", "target.data", "target.function.dynamic",
+    "target.function.precompute", "target.transition", "target.non_transition", "target.has_dependent_function", "target.limits", "target.clipped_program_value",
 ]
 
 
 def run(ctx):
     params_corr.run_params(ctx, PROPERTY)
+    # closed loop with programs: whole trajectories (stocks, flows, every parameter value) from the specification alone
+    closedprog_corr.closedprog_selfcheck(ctx, n=ctx.n(2, 5))
+    closedprog_corr.run_closedprog(ctx, PROPERTY, ctx.n(70, 2000))
 
 
 def replay(ctx, data):
+    c = (data.get("replay") or {}).get("case") or (data.get("broken") or [{}])[0].get("case")
+    if isinstance(c, dict) and c.get("closedprog"):
+        return closedprog_corr.replay_case(c)
     return params_corr.replay_params(ctx, PROPERTY, data)
 
 
